@@ -7,7 +7,8 @@ REAL = ("real: whole ChaiScript (parser, optimizer, evaluator, dispatch, stdlib,
 
 COMMON_ASSUME = [
     "sampling, not proof: a clean batch is evidence over the seeds, schedules and fault points that were run",
-    "context switches happen only at synchronisation operations, operation boundaries, harness callbacks and file calls; "
+    "context switches happen only at synchronisation operations, operation boundaries, harness callbacks, file calls and (C04, hook H4) "
+    "accesses of the shared lookup hints; "
     "behaviours needing a switch between two plain memory accesses are covered through the TSan happens-before oracle only",
     "the harness (sim/core, sim/worlds) and clang 14 / gcc 12 sanitizer runtimes are trusted",
 ]
@@ -27,10 +28,12 @@ PROPS = {
               "schedule (random-switch or PCT, swarm-varied). distinct = distinct hash of (operation-kind/actor sequence, sequence of "
               "(next actor, site kind) at every context switch); non-trivial = at least one context switch happened. "
               "Oracles: TSan happens-before over the serialised execution (scheduler hidden from TSan), ASan, per-op expected results, "
-              "thread-local isolation, per-key linearizability of registry ops, final inventory, use() exactly once, deadlock/step cap."),
+              "thread-local isolation, per-key linearizability of registry ops, final inventory, use() exactly once (a file that throws half-way: "
+              "evaluated again by every call, its exception delivered), deadlock/step cap."),
         real_vs_stub=REAL,
         assumptions=COMMON_ASSUME + ["TSan keeps a bounded per-word access history (false negatives possible for very old accesses, never false positives)"],
-        expected_probes=["probe_actor_blocked_on_mutex", "probe_lin_history_with_overlapping_ops", "probe_multiple_use_calls"],
+        expected_probes=["probe_actor_blocked_on_mutex", "probe_lin_history_with_overlapping_ops", "probe_multiple_use_calls", "probe_multiple_failing_use_calls",
+                         "probe_engine_created_by_a_thread_that_ended"],
         **two(40, 420,
               {"tsan": {"workers": 8}, "asan": {"workers": 8}},
               {"tsan": {"workers": 8}, "asan": {"workers": 6}, "plain": {"workers": 2}}),
@@ -41,10 +44,12 @@ PROPS = {
               "reuse) and 2 heap slots, performed by 1..4 long-lived actor threads; same-slot operations keep plan order, different slots "
               "interleave under the seeded scheduler. distinct = hash of (op kind, actor, slot) sequence x interleaving; non-trivial = at least "
               "one engine destroyed or one context switch. Oracle: per-generation dictionary model (locals per actor, functions, globals, "
-              "conversions, used files); every value encodes its engine generation."),
+              "conversions, used files, the embedder's long-lived extension Module, attributes attached to computed values); every value encodes its "
+              "engine generation; up to three further engines are created, used and destroyed inside another engine's use()."),
         real_vs_stub=REAL,
         assumptions=COMMON_ASSUME + ["creation/destruction of an engine is ordered with its uses by the user (plan order per slot)"],
-        expected_probes=["probe_destroyed_by_other_thread_than_user", "fault_engine_recreate_same_address", "probe_engine_used_nested_inside_use_of_another", "probe_engine_built_from_extended_library"],
+        expected_probes=["probe_destroyed_by_other_thread_than_user", "fault_engine_recreate_same_address", "probe_engine_used_nested_inside_use_of_another", "probe_engine_built_from_extended_library",
+                         "probe_long_lived_module_added", "probe_several_engines_nested_inside_use_of_another", "probe_attribute_attached_to_computed_value"],
         **two(40, 420,
               {"asan": {"workers": 8}, "plain": {"workers": 4}, "tsan": {"workers": 4}},
               {"asan": {"workers": 8}, "plain": {"workers": 4}, "tsan": {"workers": 4}}),
@@ -52,7 +57,7 @@ PROPS = {
     "C09": dict(
         level="fault_enumeration",
         rule=("one plan = one generated program; it is executed fault-free to record every callback invocation (site, occurrence) and script "
-              "throw site, then EVERY recorded crash point x every exception kind of the plan (all 10 kinds in thorough, a seeded subset of 4 in "
+              "throw / early-return site, then EVERY recorded crash point x every exception kind of the plan (all 10 kinds in thorough, a seeded subset of 4 in "
               "quick) is executed on a fresh engine (seeded sample of 60/120 points x kinds only when a program has more). evaluations = "
               "individual executions; distinct non-trivial = executions in which the injected fault actually fired (each is a distinct "
               "(program, site, occurrence, kind) tuple). Oracle: H3 stack shape after == before for every eval, get_locals == completed "
@@ -60,7 +65,7 @@ PROPS = {
         real_vs_stub=REAL,
         assumptions=COMMON_ASSUME + ["crash points are exhaustive per generated program, programs themselves are sampled",
                                      "Conversion_Saves::saves.size() is deliberately not part of the compared shape (a converted temporary legitimately stays until the next call)"],
-        expected_probes=["probe_exception_left_eval", "probe_fault_absorbed_inside_script", "fault_script_throw", "on_worker_thread"],
+        expected_probes=["probe_exception_left_eval", "probe_fault_absorbed_inside_script", "fault_script_throw", "fault_script_return", "on_worker_thread"],
         **two(40, 420,
               {"plain": {"workers": 10}, "asan": {"workers": 6}},
               {"plain": {"workers": 10}, "asan": {"workers": 6}}),
@@ -122,9 +127,11 @@ PROPS = {
     "C04": dict(
         level="exploration",
         rule=("one run = <=4/5 generated functions (declarations, reads, conditional introduction of locals by eval()/eval_file() into the current "
-              "scope, shadowing blocks, loops incl. the optimised form, recursion, calls of other functions, throwing callbacks) plus two capturing "
+              "scope, shadowing blocks, loops incl. the optimised form, ranged for, declarations in if conditions, try/catch/finally whose clause variable "
+              "shadows an outer binding, recursion, calls of other functions, throwing callbacks) plus two capturing "
               "lambdas, called by 1..3 actors in a generated order with generated flags/recursion depths (direct, bind and attribute call styles for "
-              "the lambdas); every run is executed twice: lookup hints on, and ignored through hook H2. distinct = hash of (functions, history) x "
+              "the lambdas); in half of the multi-actor plans every read/judgement/store of a lookup hint is a scheduling point (hook H4); every run is "
+              "executed twice: lookup hints on, and ignored through hook H2. distinct = hash of (functions, history) x "
               "interleaving; non-trivial = at least one function call. Oracles: hints-on == hints-ignored (results and per-actor read traces) "
               "== the generator's own scope model."),
         real_vs_stub=REAL,
@@ -132,7 +139,7 @@ PROPS = {
                                      "two constructs are excluded from generation because they are listed known findings (see known_findings.json): a read that is "
                                      "evaluated both before and after eval() introduced a local of that name in the same or an inner scope",
                                      "generated blocks start with a static declaration (a block without one is made scope-less by the optimizer: property C02's subject)"],
-        expected_probes=["probe_body_evaluated_under_different_layouts", "fault_throw_in_priming_or_later_evaluation", "probe_name_read_after_it_became_a_global", "probe_function_table_reordered"],
+        expected_probes=["probe_body_evaluated_under_different_layouts", "fault_throw_in_priming_or_later_evaluation", "probe_name_read_after_it_became_a_global", "probe_function_table_reordered", "site_hint"],
         **two(40, 420,
               {"asan": {"workers": 8}, "plain": {"workers": 4}, "tsan": {"workers": 4}},
               {"asan": {"workers": 8}, "plain": {"workers": 4}, "tsan": {"workers": 4}}),
@@ -140,14 +147,18 @@ PROPS = {
     "C08": dict(
         level="exploration",
         rule=("one run = a pool of <=4/6 generated functions whose bodies build and mutate locals from literals (strings, numbers, inline "
-              "vectors/maps/ranges, nested containers, interpolated strings, references to locals) and return locals or literals, plus <=2 parsed "
+              "vectors/maps/ranges, nested containers, interpolated strings, references to locals, lambda literals with and without captures, literals "
+              "and lambdas handed to parameter-modifying functions, a shared loop helper used with strings, vectors and a user-defined sequence) and "
+              "return locals or literals; before the run the host evaluates some helpers / functions and only THEN adds late definitions (a sequence "
+              "class, a typed overload); plus <=2 parsed "
               "trees evaluated through eval(AST_Node); every chosen call (function, argument, caller style: plain / copy-then-mutate / "
               "reference-then-mutate) is issued 3..6 times by 1..3 actors in shuffled order under the seeded scheduler; a callback inside a body "
               "throws on a chosen repetition. distinct = hash of (bodies, trees, history) x interleaving; non-trivial = at least 3 calls. "
               "Oracle: every call equals the same call on a pristine engine (one pristine engine per distinct call); AST dumps before/after."),
         real_vs_stub=REAL,
         assumptions=COMMON_ASSUME + ["AST_Node::to_string() shows node types, texts and locations, not the boxed constant values: a mutated literal is caught by the behavioural comparison, not by the dump"],
-        expected_probes=["probe_third_or_later_evaluation_of_a_body", "fault_throw_inside_body", "ast_dumps_compared", "calls_returning_a_value"],
+        expected_probes=["probe_third_or_later_evaluation_of_a_body", "fault_throw_inside_body", "ast_dumps_compared", "calls_returning_a_value",
+                         "probe_helper_evaluated_before_late_definitions"],
         **two(40, 420,
               {"asan": {"workers": 8}, "plain": {"workers": 4}, "tsan": {"workers": 4}},
               {"asan": {"workers": 8}, "plain": {"workers": 4}, "tsan": {"workers": 4}}),
@@ -157,7 +168,9 @@ PROPS = {
         asan_options="detect_stack_use_after_return=1",
         rule=("one plan = one generated program of <=25 statements over an instrumented class (create, copy, clone, store in vector / map / "
               "attribute, capture, bind, pass by value / const& / & / * / shared_ptr, return, drop in nested scopes, converted temporaries, "
-              "escapes through a C++-held shared_ptr, a Holder object, a global or the eval result, closures capturing a loop variable). It is "
+              "escapes through a C++-held shared_ptr, a Holder object, a global or the eval result, closures capturing a loop variable, loops left by "
+              "break/continue, base->derived conversion, C++ functions returning references/pointers to their argument or calling back into script, "
+              "attribute maps outliving their object, C++ -> script std::function calls with by-value arguments kept by the script). It is "
               "executed fault-free, with the script-level throw sites armed, and with EVERY instrumented constructor/copy call in turn throwing "
               "(seeded sample of 8 above 40 calls). evaluations = executions; distinct non-trivial = executions in which an injected constructor "
               "failure fired, plus programs. Oracle: instance registry (exactly-once destruction, canary on every access, live set == reachable "
@@ -174,17 +187,18 @@ PROPS = {
     "C06": dict(
         level="exploration",
         rule=("one run = a history of <=30/40 operations by 1..3 actors under the seeded scheduler: register an overload drawn from a catalogue "
-              "of 40 signatures (value, const&, &, *, const*, shared_ptr, shared_ptr<const>, std::function, arithmetic, bool, string, Base / "
+              "of 48 signatures (value, const&, &, &&, *, const*, shared_ptr, shared_ptr<const>, std::function of one and of two parameters, arithmetic, bool, string, Base / "
               "Derived / Other classes, Boxed_Value / Boxed_Number catch-alls, arity 1-2) under one of <=3 names, register the Derived->Base "
-              "conversion, call a name with 0-3 arguments drawn from 14 script values (const and non-const sources of every kind), fetch a function "
-              "object and call it later, boxed_cast a script value to one of 8 C++ types. distinct = hash of the history x interleaving; "
+              "conversion, call a name with 0-3 arguments drawn from 22 script values (const and non-const sources of every kind, lambdas and bind() "
+              "results by open arity, an undefined value, a shared_ptr-held variable that a C++ function re-seats between calls), fetch a function "
+              "object and call it later, boxed_cast a script value to one of 12 C++ types. distinct = hash of the history x interleaving; "
               "non-trivial = at least one C++ function entered or cast succeeded. Oracle: soundness rules over the entry log (see DESIGN.md)."),
         real_vs_stub=REAL,
         assumptions=COMMON_ASSUME + ["weakest fit of the claimed properties: the (overload set x argument tuple) space is an input space; simulation contributes registration order, "
                                      "registrations concurrent with calls, function objects fetched earlier, per-thread conversion caches",
                                      "const-ness of the argument is not part of the entry rules (property C07's subject); it is used only to decide which calls MUST succeed",
-                                     "function bodies that themselves throw bad_boxed_cast (which dispatch treats as 'try the next overload') are not generated"],
-        expected_probes=["probe_entered_through_base_conversion", "probe_entered_through_conversion_or_catch_all", "casts_succeeded", "casts_refused", "calls_refused", "probe_entered_body_raised_bad_cast"],
+                                     "function bodies that themselves throw bad_boxed_cast (which dispatch treats as 'try the next overload') are known finding C06-K1 and not generated"],
+        expected_probes=["probe_entered_through_base_conversion", "probe_entered_through_conversion_or_catch_all", "casts_succeeded", "casts_refused", "calls_refused", "probe_entered_body_raised_bad_cast", "probe_shared_ptr_variable_reseated"],
         **two(40, 420,
               {"asan": {"workers": 8}, "plain": {"workers": 4}, "tsan": {"workers": 4}},
               {"asan": {"workers": 8}, "plain": {"workers": 4}, "tsan": {"workers": 4}}),
